@@ -136,6 +136,10 @@ def features():
         # must not switch the mode off for the rest of the outer section
         {'name': 'NestedSections', 'body': [F('id', 'char'), CH(F('a', 'string'), BR, CH(F('b', 'char'), BR, F('b2', 'string')), BR, F('c', 'string'), BR, F('d', 'byte'), F('e', 'string'))]},
         {'name': 'CaseSection', 'body': [CH(F('k', 'Kind'), SW('k', CASE('A', CH(F('x', 'string'), BR, F('y', 'char')))), BR, F('after', 'string'), BR, F('z', 'byte'), F('tail', 'string'))]},
+        # a switch on an OPTIONAL field (the field may be None): empty default, and a default with data
+        {'name': 'OptSwitch', 'body': [F('id', 'char'), F('k', 'Kind', optional='true'), SW('k', CASE('A', F('q', 'char', optional='true')), CASE(None, default=True))]},
+        {'name': 'OptSwitchData', 'body': [F('id', 'char'), F('n', 'char', optional='true'), SW('n', CASE('1', F('q', 'char', optional='true')), CASE(None, F('z', 'short', optional='true'), default=True))]},
+        {'name': 'OptSwitchEnumData', 'body': [F('k', 'Kind', optional='true'), SW('k', CASE('B'), CASE(None, F('z', 'short', optional='true'), default=True))]},
         # two sibling chunked sections in one class
         {'name': 'TwoSections', 'body': [F('id', 'char'), CH(F('a', 'string'), BR, F('n', 'char')), F('mid', 'short'), CH(F('b', 'string'))]},
         {'name': 'ArrOfArr', 'body': [L('rows_count', 'char'), A('rows', 'Rest', length='rows_count')] if False else [L('rows_count', 'char'), A('rows', 'Named', length='rows_count')]},
